@@ -215,8 +215,8 @@ def gen_case(rng: random.Random, tier: str) -> dict:
         elif kind == "list_files_filtered":
             c["filter"] = _gen_filter(rng, drives[drive], frac_ok)
             c["drive"] = drive
-            c["consume"] = rng.choice(["all", "all", "all", "close_after"])
-            if c["consume"] == "close_after":
+            c["consume"] = rng.choice(["all", "all", "all", "close_after", "throw_after", "drop_after"])
+            if c["consume"] != "all":
                 c["k"] = rng.randrange(0, 4)
         elif kind in ("list_files_modified_since", "list_files_created_since"):
             flt = _gen_filter(rng, drives[drive], frac_ok)
@@ -226,8 +226,9 @@ def gen_case(rng: random.Random, tier: str) -> dict:
             c["drive"] = drive
         else:
             folders = _all_folder_paths(drives[drive])
-            simple = [p for p in folders if "/" not in p] or [""]
-            c["folder"] = rng.choice(simple + ["/"])
+            c["folder"] = rng.choice((folders or [""]) + ["/"])  # nested paths too: every separator has to survive the quoting
+            if c["folder"] and c["folder"] != "/" and rng.random() < 0.3:
+                c["folder"] = rng.choice(["/" + c["folder"], c["folder"] + "/", "/" + c["folder"] + "/"])
             c["drive"] = drive
         calls.append(c)
     nk = rng.choice([3, 5, len(CORE_KINDS)])
@@ -364,10 +365,24 @@ def _invoke(client, sim, call, viol, tagc):
             items = list(res)
         else:
             it = iter(res)
-            stop_after = call.get("k") if call.get("consume") == "close_after" else None
+            mode = call.get("consume")
+            stop_after = call.get("k") if mode in ("close_after", "throw_after", "drop_after") else None
             while True:
                 if stop_after is not None and len(items) >= stop_after:
-                    res.close()
+                    if mode == "throw_after":
+                        try:
+                            res.throw(KeyError("consumer failure"))
+                        except KeyError:
+                            pass
+                        except StopIteration:
+                            pass
+                    elif mode == "drop_after":
+                        it = None
+                        res = None
+                        import gc
+                        gc.collect()
+                    else:
+                        res.close()
                     if sim.open_responses():
                         viol.append({"class": "response_left_open", "sig": f"{kind}|consumer_close",
                                      "detail": f"{sim.open_responses()} responses open after generator.close()"})
@@ -663,7 +678,7 @@ def shrink(case):
             del c["calls"][i]["filter"][key]
             c["faults"] = _reenum(case)
             yield c
-        if cl.get("consume") == "close_after":
+        if cl.get("consume") not in (None, "all"):
             c = copy.deepcopy(case)
             c["calls"][i]["consume"] = "all"
             yield c
